@@ -167,8 +167,13 @@ impl Builder {
                 let cs = self.children(v);
                 // both ways of obtaining an empty builder are exercised
                 let mut pb = if cs.len() % 2 == 0 { aml::PackageBuilder::default() } else { aml::PackageBuilder::new() };
-                for c in cs {
+                let n = cs.len();
+                for (k, c) in cs.into_iter().enumerate() {
                     pb.add_element(c);
+                    // looking at a half-filled builder must not change what it emits later
+                    if n <= 16 {
+                        crate::tables::real::peek(&pb, k + n);
+                    }
                 }
                 self.arena.add(pb)
             }
